@@ -179,9 +179,6 @@ class Model():
         asset.id = asset_id if asset_id is not None else self.next_id
         if asset.id in self.asset_ids:
             raise ValueError(f'Asset index {asset_id} already in use.')
-        self.asset_ids.add(asset.id)
-
-        self.next_id = max(asset.id + 1, self.next_id)
 
         asset.associations = []
 
@@ -202,6 +199,10 @@ class Model():
                         ' and we do not allow duplicates.'
                     )
         self.asset_names.add(asset.name)
+
+        # Only reserve the id once the asset is certain to be added
+        self.asset_ids.add(asset.id)
+        self.next_id = max(asset.id + 1, self.next_id)
 
         # Optional field for extra asset data
         if not hasattr(asset, 'extras'):
